@@ -150,8 +150,17 @@ func ruleR16(c *Ctx, prop string) {
 				ok = ok && found
 			}
 		}
-		c.decide(ok, "R16", key, c.pos(apply.Pos()), name+" returns exactly "+strings.Join(want[name], "  |  "),
-			fmt.Sprintf("%s's result paths do not have the ONNX dependency shape; computed: %s ; expected: %s", name, strings.Join(got, "  |  "), strings.Join(want[name], "  |  ")))
+		whyBad := fmt.Sprintf("%s's result paths do not have the ONNX dependency shape; computed: %s ; expected: %s", name, strings.Join(got, "  |  "), strings.Join(want[name], "  |  "))
+		if !ok {
+			// however Apply is factored: the output as a term over abstract operands, compared with the definition
+			if known, tbad, cells := c.affineTable(name); known {
+				ok, whyBad = tbad == "", tbad
+				if ok {
+					c.counts["R16.affine_table_cells"] += cells
+				}
+			}
+		}
+		c.decide(ok, "R16", key, c.pos(apply.Pos()), name+" returns exactly "+strings.Join(want[name], "  |  "), whyBad)
 	}
 	// Gemm: transposes are conditional on their own flag
 	if oi := c.opByName("Gemm"); oi != nil {
@@ -296,8 +305,24 @@ func (c *Ctx) checkMatMul(oi *opInfo) {
 	c.decide(ok, "R16", key, c.pos(bc.Pos()), "batch broadcasting walks the axes len-3 down to 0: every batch axis and never a matrix axis", why)
 
 	// vector promotions: A (n) -> (1,n) prepended; B (n) -> (n,1) appended; each is undone on its own
+	nMM := len(c.obls)
 	c.checkMatMulUnpromote(apply)
 	c.checkBatchedMatMul(oi)
+	// the result shapes over a finite table of operand shapes, however promotion and batching are written
+	if known, bad, cells := c.matmulTable(apply); known {
+		if bad != "" {
+			c.violate("R16", "R16:matmul:shape-table", c.pos(apply.Pos()), bad)
+		} else {
+			c.discharge("R16", "R16:matmul:shape-table", c.pos(apply.Pos()), fmt.Sprintf("%d pairs of operand shapes (rank 1..4, non-square, batch axes equal / 1 / missing, incompatible ones): numpy.matmul's shape or a refusal", cells))
+			for i := nMM; i < len(c.obls); i++ {
+				o := &c.obls[i]
+				if (o.Status == StViolated || o.Status == StUndecided) && (o.Key == "R16:matmul:unpromote" || o.Key == "R16:matmul:batched-operands") {
+					o.Status = StNote
+					o.Why = "structural pattern not recognised (" + o.Why + "); the clause is decided by the finite table R16:matmul:shape-table"
+				}
+			}
+		}
+	}
 	got := c.successTerms(apply)
 	c.note("R16", "R16:matmul:terms", c.pos(apply.Pos()), strings.Join(got, " | "))
 }
